@@ -307,7 +307,7 @@ impl<K: Key> Sut for Bt<K> {
         let _ = idx.compact_buckets();
     }
 
-    fn flush(idx: &Self::Index, now: u64, fail_at: Option<usize>) -> FlushOut {
+    fn flush(idx: &Self::Index, now: u64, fail_at: Option<usize>, hook: Option<(usize, &dyn Fn())>) -> FlushOut {
         let puts: RefCell<Vec<JEntry>> = RefCell::new(Vec::new());
         let count = Cell::new(0usize);
         let res = block_on(idx.flush_owned_with(
@@ -315,6 +315,11 @@ impl<K: Key> Sut for Bt<K> {
             |data: Vec<u8>| {
                 let k = count.get();
                 count.set(k + 1);
+                if let Some((at, f)) = hook
+                    && at == k
+                {
+                    f();
+                }
                 let r: Result<(), anda_db_btree::BoxError> = if Some(k) == fail_at {
                     Err("injected metadata write error".into())
                 } else {
@@ -326,6 +331,11 @@ impl<K: Key> Sut for Bt<K> {
             |obj: BucketObject, data: Vec<u8>| {
                 let k = count.get();
                 count.set(k + 1);
+                if let Some((at, f)) = hook
+                    && at == k
+                {
+                    f();
+                }
                 let r: Result<(), anda_db_btree::BoxError> = if Some(k) == fail_at {
                     Err("injected bucket write error".into())
                 } else {
